@@ -41,6 +41,8 @@ def setup(ctx):
     ctx.require("monitor", "l2_late_client_bytes_while_answering", 10)
     ctx.require("monitor", "l2_client_half_close", 20)
     ctx.require("monitor", "l2_slow_handler_responses", 10)
+    ctx.require("monitor", "l2_bounded_pipe", 20)
+    ctx.require("monitor", "static_files_rewritten_while_serving", 12)
     ctx.require("monitor", "static_files_with_special_text", 8)
     ctx.require("backend", "pyopenssl", 10)
     ctx.require("backend", "stdlib", 10)
@@ -209,6 +211,11 @@ def run_l2(ctx):
                         bench.client_send_then_close_notify(req)
                         ctx.count("monitor", "l2_client_half_close")
                     elif not coalesce:
+                        if (idx // 5) % 2:
+                            # a network that takes a few bytes / KiB at a time and a client that reads what arrives: the
+                            # rest of the response waits in the server's transport buffer and is still owed
+                            bench.prompt_reader(rng.choice([64, 4096, 65536]))
+                            ctx.count("monitor", "l2_bounded_pipe")
                         bench.client_send(req)
                     if mode.startswith("async-slow"):
                         loop.advance(0.25)
@@ -289,6 +296,29 @@ def run_l3(ctx):
                         expected = b"20 text/gemini\r\n" + files[name]
                         compare(ctx, case, expected, r["data"], r["eof"], "L3")
                         ctx.case(("L3", backend, bucket(len(files[name])), "static", p), True, sample={"level": "L3", **case})
+                # the files change while the server runs (a deploy that keeps time stamps - rsync -t, cp -p, tar x - or
+                # an ordinary rewrite): every request gets the bytes that are on disk when it is made
+                for name, keep_mtime, same_size in (("f3_16384.gmi", True, True), ("f1_1.gmi", True, True), ("odd_crlf.gmi", True, True), ("f5_16500.gmi", False, True),
+                                                   ("f4_16385.gmi", True, False), ("f9_100000.gmi", True, True)):
+                    pth = os.path.join(root, name)
+                    if name not in files:
+                        continue
+                    st = os.stat(pth)
+                    old = files[name]
+                    new = bytes((b ^ 0x01) if 0x40 < b < 0x7B else b for b in old) if same_size else old + b"appended line\n"
+                    if new == old:
+                        new = b"Z" * len(old)
+                    with open(pth, "wb") as f:
+                        f.write(new)
+                    if keep_mtime:
+                        os.utime(pth, ns=(st.st_atime_ns, st.st_mtime_ns))
+                    files[name] = new
+                    for again in range(2):
+                        r = live.fetch_raw(srv.port, f"gemini://localhost/{name}\r\n".encode(), reader="fast", timeout=120, host=srv.host)
+                        case = {"backend": backend, "len": len(new), "btype": "str", "source": "static:rewritten-while-serving", "reader": "fast", "mtime_kept": keep_mtime, "size_kept": same_size}
+                        ctx.count("monitor", "static_files_rewritten_while_serving")
+                        compare(ctx, case, b"20 text/gemini\r\n" + new, r["data"], r["eof"], "L3")
+                        ctx.case(("L3", backend, "rewritten", keep_mtime, same_size, again), True, sample={"level": "L3", **case})
     finally:
         shutil.rmtree(base, ignore_errors=True)
 
